@@ -321,6 +321,11 @@ def main(argv=None):
     except subprocess.TimeoutExpired as e:
         print(f"TIMEOUT {pid}: {e}")
         rc = 2
+    except Exception:
+        # a bug of the harness itself is an infrastructure failure, never a verdict
+        print(f"INFRASTRUCTURE FAILURE {pid}: unexpected exception in the harness")
+        traceback.print_exc()
+        rc = 2
     sys.exit(rc)
 
 
